@@ -14,6 +14,7 @@ import (
 	"encoding/json"
 	"fmt"
 	"math/rand"
+	"net/http"
 	"sort"
 	"strings"
 	"sync"
@@ -37,6 +38,7 @@ type c11Case struct {
 	Fed     *FedSpec    `json:"federation"`
 	Salt    uint32      `json:"salt"`
 	Hostile bool        `json:"hostile_ids"`
+	ReqMW   bool        `json:"request_middleware"`
 	Docs    []*GenQuery `json:"documents"`
 	Reqs    []c11Req    `json:"requests"`
 }
@@ -182,10 +184,20 @@ func runC11(cfg *runCfg) error {
 		cs := replay
 		if cs == nil {
 			g := &fedGen{r: r, MultiHomePct: []int{0, 20, 45}[r.Intn(3)], Iface: r.Intn(2) == 0}
-			cs = &c11Case{Fed: g.Spec(), Salt: r.Uint32(), Hostile: r.Intn(2) == 0}
+			cs = &c11Case{Fed: g.Spec(), Salt: r.Uint32(), Hostile: r.Intn(2) == 0, ReqMW: r.Intn(2) == 0}
 		}
 		st := genStore(rand.New(rand.NewSource(int64(cs.Salt))), cs.Fed, cs.Hostile)
-		fed, err := NewFed(cs.Fed, st, rand.New(rand.NewSource(int64(cs.Salt))))
+		var extra []gateway.Option
+		if cs.ReqMW {
+			// a gateway with a request middleware: every service hands out a wrapped copy of itself for the
+			// call (svc.go: WithMiddlewares), which must not find its way into the shared plan
+			extra = append(extra, gateway.WithMiddlewares(gateway.RequestMiddleware(func(req *http.Request) error {
+				req.Header.Add("X-Mw", "1")
+				return nil
+			})))
+			doc.Dist["with-request-middleware"]++
+		}
+		fed, err := NewFed(cs.Fed, st, rand.New(rand.NewSource(int64(cs.Salt))), extra...)
 		if err != nil {
 			return fmt.Errorf("federation %d does not build: %v", id, err)
 		}
@@ -335,7 +347,9 @@ func runC11(cfg *runCfg) error {
 			reqs = append(reqs, fmt.Sprintf("{| ro_vars := %s; ro_solo := %s; ro_conc := %s; ro_again := %s |}",
 				c.vars(rq.Vars), c.c11obs(solo[i], fed), c.c11obs(conc[i], fed), c.c11obs(again[i], fed)))
 		}
-		c.Printf("Eval vm_compute in (%d%%nat, plans_unchanged %s %s, c11_holds %d [%s], @nil nat).\n", id,
+		// "executing never changes the plan" is the property's own words: the snapshot comparison is
+		// part of the oracle (there is no model component in these cases)
+		c.Printf("Eval vm_compute in (%d%%nat, true, plans_unchanged %s %s && c11_holds %d [%s], @nil nat).\n", id,
 			c.Strs(before), c.Strs(after), stray, strings.Join(reqs, "; "))
 		key, _ := json.Marshal(cs)
 		ncalls := 0
